@@ -98,6 +98,7 @@ def parseOp (toks : List String) : Parsed :=
     | ["volid"] => some (.api .volid)
     | ["fattype"] => some (.api .fattype)
     | ["crashprobe", p] => (textOf p).map .crashprobe
+    | ["crashprobe", p, _] => (textOf p).map .crashprobe
     | _ => none
   r.getD .unknown
 
